@@ -50,6 +50,14 @@ LEAF = {
     'ScriptBuf': (('bytes16',), 'util/ser.rs impl Readable for ScriptBuf (u16 length prefix)'),
     'Vec<u8>': (('varBytes',), 'util/ser.rs impl Readable for Vec<u8> (CollectionLength prefix)'),
     'Vec<Signature>': (('vec', ('fixed', 64, 'sig')), 'util/ser.rs impl_for_vec!(ecdsa::Signature)'),
+    # hand-written codecs (Model/MsgSchemasHand.lean)
+    'ChannelFeatures': (('bytes16',), 'ln/features.rs impl_feature_len_prefixed_write!(ChannelFeatures): u16 length, flag bytes kept as they are'),
+    'NodeId': (('fixed', 33, 'any'), 'routing/gossip.rs impl Readable for NodeId: 33 raw bytes, not validated as a point'),
+    'ChannelTypeFeatures': (('restBytes',), 'ln/features.rs impl_feature_tlv_write!(ChannelTypeFeatures): WithoutLength, read_to_end, bytes kept as they are'),
+}
+# `(option, encoding: (T, WithoutLength))` on a hand-written TLV
+HAND_ENCODINGS = {
+    ('ScriptBuf', 'WithoutLength'): (('restBytes',), 'util/ser.rs WithoutLength<ScriptBuf>: the raw script bytes to the end of the record'),
 }
 # `(option, encoding: (T, Wrapper))` wrappers
 ENCODINGS = {
@@ -274,6 +282,155 @@ def parse_macros(src):
     return out
 
 
+def impl_body(src, header_re, what):
+    m = re.search(header_re, src)
+    if not m:
+        raise TranslateError('%s not found' % what)
+    o = src.index('{', m.end() - 1)
+    return src[o + 1:match_close(src, o, '{', '}')], src.count('\n', 0, m.start()) + 1
+
+
+def tlv_entries(body, macro, what):
+    m = re.search(r'\b%s!\(' % macro, body)
+    if not m:
+        return None
+    j = match_close(body, m.end() - 1, '(', ')')
+    inner = body[m.end():j]
+    k = inner.index('{')
+    out = []
+    for rec in split_top(inner[k + 1:match_close(inner, k, '{', '}')]):
+        if not (rec.startswith('(') and rec.endswith(')')):
+            raise TranslateError('%s: TLV entry %r' % (what, rec))
+        items = split_top(rec[1:-1])
+        if len(items) != 3:
+            raise TranslateError('%s: TLV entry %r' % (what, rec))
+        out.append((int(items[0]), ' '.join(items[1].split()), ' '.join(items[2].split())))
+    return out, body[:m.start()]
+
+
+def hand_let_style(ctx, name):
+    """`impl LengthReadable for Name`: `let f: T = Readable::read(r)?;`… then `decode_tlv_stream!(r, {…})`;
+    `impl Writeable for Name`: `self.(path.)f.write(w)?;`… in the same order, then `encode_tlv_stream!` with the same types"""
+    src = ctx.src[MSGS]
+    rbody, rline = impl_body(src, r'impl LengthReadable for %s\s*\{' % name, 'impl LengthReadable for ' + name)
+    wbody, wline = impl_body(src, r'impl Writeable for %s\s*\{' % name, 'impl Writeable for ' + name)
+    r = tlv_entries(rbody, 'decode_tlv_stream', name)
+    w = tlv_entries(wbody, 'encode_tlv_stream', name)
+    if r is None or w is None:
+        raise TranslateError('%s: expected decode_tlv_stream!/encode_tlv_stream!' % name)
+    (rt, rpre), (wt, wpre) = r, w
+    lets = re.findall(r'let\s+(\w+)\s*:\s*([\w<>:, ()]+?)\s*=\s*Readable::read\(r\)\?;', rpre)
+    n_reads = len(re.findall(r'read\(r\)|read_from_fixed_length_buffer\(r\)|read_exact|read_to_end', rpre))
+    if not lets or n_reads != len(lets):
+        raise TranslateError('%s: reader is not a plain sequence of `let f: T = Readable::read(r)?;` (%d lets, %d reads)' % (name, len(lets), n_reads))
+    writes = re.findall(r'self\.((?:\w+\.)*\w+)\.write\(w\)\?;', wpre)
+    if [x.split('.')[-1] for x in writes] != [f for f, _ in lets] or len(re.findall(r'\.write\(w\)|write_all', wpre)) != len(writes):
+        raise TranslateError('%s: writer field order %s differs from reader field order %s' % (name, [x.split('.')[-1] for x in writes], [f for f, _ in lets]))
+    if [t for t, _, _ in rt] != [t for t, _, _ in wt]:
+        raise TranslateError('%s: encode_tlv_stream! types %s vs decode_tlv_stream! types %s' % (name, [t for t, _, _ in wt], [t for t, _, _ in rt]))
+    muts = dict(re.findall(r'let\s+mut\s+(\w+)\s*:\s*Option<(.+?)>\s*=\s*None;', rpre))
+    fixed = [(f, ctx.ty(t), t) for f, t in lets]
+    tlvs = []
+    for typ, f, kind in rt:
+        if f not in muts:
+            raise TranslateError('%s: TLV variable %s has no `let mut %s: Option<T> = None;`' % (name, f, f))
+        m = re.fullmatch(r'\(option,\s*encoding:\s*\((\w+),\s*(\w+)\)\)', kind)
+        if kind == 'option':
+            tlvs.append((typ, f, ctx.ty(muts[f]), muts[f]))
+        elif m and (m.group(1), m.group(2)) in HAND_ENCODINGS and muts[f] == m.group(1):
+            tlvs.append((typ, f, HAND_ENCODINGS[(m.group(1), m.group(2))][0], muts[f]))
+        else:
+            raise TranslateError('%s: TLV %d `%s` has kind `%s`' % (name, typ, f, kind))
+    return {'name': name, 'fixed': fixed, 'tlvs': tlvs, 'tail': False, 'line': rline, 'wline': wline}
+
+
+def hand_struct_style(ctx, name, expect_post=None):
+    """`impl LengthReadable for Name`: `Self { f: Readable::read(r)?, …, excess_data: read_to_end(r)?, }` (field types from the
+    struct declaration, `contents: LengthReadable::read_from_fixed_length_buffer(r)?` inlines the Unsigned… message);
+    `impl Writeable`: `self.f.write(w)?;`… in the same order, `w.write_all(&self.excess_data[..])?` last"""
+    src = ctx.src[MSGS]
+    rbody, rline = impl_body(src, r'impl LengthReadable for %s\s*\{' % name, 'impl LengthReadable for ' + name)
+    wbody, wline = impl_body(src, r'impl Writeable for %s\s*\{' % name, 'impl Writeable for ' + name)
+    m = re.search(r'\bSelf\s*\{', rbody)
+    if not m:
+        raise TranslateError('%s: reader has no `Self { … }` literal' % name)
+    lit = rbody[m.end():match_close(rbody, m.end() - 1, '{', '}')]
+    decl, _ = ctx.struct_fields(name)
+    if decl is None:
+        raise TranslateError('struct %s not found' % name)
+    d = dict(decl)
+    fixed, tail, order = [], False, []
+    for part in split_top(lit):
+        pm = re.fullmatch(r'(\w+)\s*:\s*(.+)', part, re.S)
+        if not pm or pm.group(1) not in d:
+            raise TranslateError('%s: cannot parse reader field %r' % (name, part))
+        f, e = pm.group(1), ' '.join(pm.group(2).split())
+        order.append(f)
+        if tail:
+            raise TranslateError('%s: field %s after the read_to_end field' % (name, f))
+        if e == 'Readable::read(r)?':
+            fixed.append((f, ctx.ty(d[f]), d[f]))
+        elif e == 'read_to_end(r)?' and d[f] == 'Vec<u8>':
+            tail = True
+        elif e == 'LengthReadable::read_from_fixed_length_buffer(r)?' and f == 'contents':
+            inner = hand_struct_style(ctx, d[f])
+            fixed += [('contents.' + a, b, c) for a, b, c in inner['fixed']]
+            tail = inner['tail']
+        else:
+            raise TranslateError('%s: unexpected reader for %s: %s' % (name, f, e))
+    if set(order) != set(d):
+        raise TranslateError('%s: reader fills %s, struct has %s' % (name, order, sorted(d)))
+    worder = re.findall(r'(?:\(?self\.(\w+)(?:\s*\|\s*1\))?\.write\(w\)\?;|w\.write_all\(&self\.(\w+)\[\.\.\]\)\?;)', wbody)
+    worder = [a or b for a, b in worder]
+    if worder != order:
+        raise TranslateError('%s: writer field order %s differs from reader field order %s' % (name, worder, order))
+    post = None
+    pm = re.search(r'if\s+res\.(\w+)\s*&\s*1\s*!=\s*1\s*\{[^}]*Err\(DecodeError::InvalidValue\)', rbody, re.S)
+    if pm:
+        post = [f for f, _, _ in fixed].index(pm.group(1))
+        if not re.search(r'\(self\.%s\s*\|\s*1\)\.write\(w\)' % pm.group(1), wbody):
+            raise TranslateError('%s: writer does not force the low bit of %s' % (name, pm.group(1)))
+    elif re.search(r'\bif\b', rbody):
+        raise TranslateError('%s: reader has a check the translator does not know' % name)
+    return {'name': name, 'fixed': fixed, 'tlvs': [], 'tail': tail, 'post': post, 'line': rline, 'wline': wline}
+
+
+# whitespace-normalised bodies of the irregular hand-written impls mirrored by Model/MsgSchemasHand.lean (decodeErrorMsg,
+# decodePing, decodePong and their encoders): any change to one of them is a TRANSLATE-ERROR
+HAND_FRAGMENTS = {
+    'Writeable for ErrorMessage':
+        'fn write<W: Writer>(&self, w: &mut W) -> Result<(), io::Error> { self.channel_id.write(w)?; (self.data.len() as u16).write(w)?; w.write_all(self.data.as_bytes())?; Ok(()) }',
+    'LengthReadable for ErrorMessage':
+        'fn read_from_fixed_length_buffer<R: LengthLimitedRead>(r: &mut R) -> Result<Self, DecodeError> { Ok(Self { channel_id: Readable::read(r)?, data: { let sz: usize = <u16 as Readable>::read(r)? as usize; let mut data = Vec::with_capacity(sz); data.resize(sz, 0); r.read_exact(&mut data)?; match String::from_utf8(data) { Ok(s) => s, Err(_) => return Err(DecodeError::InvalidValue), } }, }) }',
+    'Writeable for WarningMessage':
+        'fn write<W: Writer>(&self, w: &mut W) -> Result<(), io::Error> { self.channel_id.write(w)?; (self.data.len() as u16).write(w)?; w.write_all(self.data.as_bytes())?; Ok(()) }',
+    'LengthReadable for WarningMessage':
+        'fn read_from_fixed_length_buffer<R: LengthLimitedRead>(r: &mut R) -> Result<Self, DecodeError> { Ok(Self { channel_id: Readable::read(r)?, data: { let sz: usize = <u16 as Readable>::read(r)? as usize; let mut data = Vec::with_capacity(sz); data.resize(sz, 0); r.read_exact(&mut data)?; match String::from_utf8(data) { Ok(s) => s, Err(_) => return Err(DecodeError::InvalidValue), } }, }) }',
+    'Writeable for Ping':
+        'fn write<W: Writer>(&self, w: &mut W) -> Result<(), io::Error> { self.ponglen.write(w)?; vec![0u8; self.byteslen as usize].write(w)?; Ok(()) }',
+    'LengthReadable for Ping':
+        'fn read_from_fixed_length_buffer<R: LengthLimitedRead>(r: &mut R) -> Result<Self, DecodeError> { Ok(Ping { ponglen: Readable::read(r)?, byteslen: { let byteslen = Readable::read(r)?; r.read_exact(&mut vec![0u8; byteslen as usize][..])?; byteslen }, }) }',
+    'Writeable for Pong':
+        'fn write<W: Writer>(&self, w: &mut W) -> Result<(), io::Error> { vec![0u8; self.byteslen as usize].write(w)?; Ok(()) }',
+    'LengthReadable for Pong':
+        'fn read_from_fixed_length_buffer<R: LengthLimitedRead>(r: &mut R) -> Result<Self, DecodeError> { Ok(Pong { byteslen: { let byteslen = Readable::read(r)?; r.read_exact(&mut vec![0u8; byteslen as usize][..])?; byteslen }, }) }',
+}
+
+
+def check_fragments(ctx):
+    src = ctx.src[MSGS]
+    for key, want in HAND_FRAGMENTS.items():
+        tr, name = key.split(' for ')
+        body, _ = impl_body(src, r'impl %s for %s\s*\{' % (tr, name), 'impl ' + key)
+        got = ' '.join(body.split())
+        if got != want:
+            raise TranslateError('impl %s changed (Model/MsgSchemasHand.lean mirrors the old text): now `%s`' % (key, got[:300]))
+
+
+HAND_LET = ['OpenChannel', 'AcceptChannel', 'OpenChannelV2', 'AcceptChannelV2']
+HAND_STRUCT = ['UnsignedChannelAnnouncement', 'ChannelAnnouncement', 'UnsignedChannelUpdate', 'ChannelUpdate']
+
+
 def unwrap_option(t):
     m = re.fullmatch(r'Option<(.+)>', t)
     return m.group(1).strip() if m else None
@@ -343,6 +500,21 @@ def main(out_path):
     L.append('/-- macro-declared messages NOT covered by the model (name, reason) -/')
     L.append('def notCovered : List (String × String) := [' + ', '.join('("%s", "%s")' % (n, r.replace('"', "'")) for n, r in not_covered) + ']')
     L.append('')
+    check_fragments(ctx)
+    hand = [hand_let_style(ctx, n) for n in HAND_LET] + [hand_struct_style(ctx, n) for n in HAND_STRUCT]
+    for h in hand:
+        cp = ctx.src[MSGS]
+        if h['name'] == 'ChannelUpdate':
+            h['post'] = 1 + [f for f, _, _ in hand_struct_style(ctx, 'UnsignedChannelUpdate')['fixed']].index('message_flags')
+    L.append('/-- Field layout of the hand-written codecs of msgs.rs covered by Model/MsgSchemasHand.lean, EXTRACTED from the')
+    L.append('    `impl LengthReadable` / `impl Writeable` bodies (reader order = writer order checked by the translator):')
+    L.append('    (name, fixed field types, TLVs (type, payload type), ends with read_to_end excess data,')
+    L.append('     index of the u8 field whose low bit must be set (checked after all fields were read)) -/')
+    L.append('def handPinned : List HandLayout := [')
+    L.append(',\n'.join('  ⟨"%s", [%s], [%s], %s, %s⟩ /- msgs.rs read line %d, write line %d -/' % (
+        h['name'], ', '.join(lean_ty(t) for _, t, _ in h['fixed']), ', '.join('(%d, %s)' % (typ, lean_ty(t)) for typ, _, t, _ in h['tlvs']),
+        'true' if h['tail'] else 'false', 'none' if h.get('post') is None else 'some %d' % h['post'], h['line'], h['wline']) for h in hand) + ']')
+    L.append('')
     L.append('end Ldk.Codec.Gen')
     text = '\n'.join(L) + '\n'
     old = open(out_path).read() if os.path.exists(out_path) else None
@@ -353,7 +525,9 @@ def main(out_path):
                        'fixed': [{'name': f, 'ty': json_ty(t), 'rust': rt} for f, t, rt in s['fixed']],
                        'tlvs': [{'type': typ, 'name': f, 'ty': json_ty(t), 'kind': kind, 'rust': rt} for typ, f, t, kind, rt in s['tlvs']]}
                       for s in schemas],
-          'not_covered': [{'name': n, 'reason': r} for n, r in not_covered]}
+          'not_covered': [{'name': n, 'reason': r} for n, r in not_covered],
+          'hand': [{'name': h['name'], 'fixed': [{'name': f, 'ty': json_ty(t), 'rust': rt} for f, t, rt in h['fixed']],
+                    'tlvs': [{'type': typ, 'name': f, 'ty': json_ty(t), 'rust': rt} for typ, f, t, rt in h['tlvs']], 'tail': h['tail'], 'post': h.get('post')} for h in hand]}
     jp = os.path.join(os.path.dirname(os.path.abspath(out_path)), 'schemas.json')
     jt = json.dumps(js, indent=1, sort_keys=True) + '\n'
     if not os.path.exists(jp) or open(jp).read() != jt:
